@@ -49,6 +49,22 @@ async def _bridge_life(nports: int, acts: List[str]) -> str:
                             await bridge.__aexit__(None, None, None)
                         else:
                             await bridge.stop()
+                    elif a.startswith("sstop:"):
+                        # a broadcast is on its way (sent k loop turns ago) when stop() is called: whatever happens to it, no
+                        # callback may come once stop() has returned
+                        _, i, k = a.split(":")
+                        i, k = int(i), int(k)
+                        if ports[i] <= 65535:
+                            tx.sendto(dgram, ("127.0.0.1", ports[i]))
+                        for _ in range(k):
+                            await asyncio.sleep(0)
+                        await bridge.stop()
+                        c0 = count[0]
+                        for _ in range(12):
+                            await asyncio.sleep(0)
+                        await asyncio.sleep(0.02)
+                        if count[0] > c0:
+                            res = "callback-after-stop-returned"
                     elif a.startswith("send:"):
                         i = int(a[5:])
                         n0 = count[0]
@@ -216,6 +232,18 @@ async def _client_life(api_type: str, acts: List[str]) -> str:
                     r = await (api.get_state() if api_type == "type1" else api.stop())
                 elif a == "disc":
                     await api.disconnect()
+                elif a == "withref":            # `async with` while the device refuses the connection: the error comes out of the
+                    target["port"] = dead       # entry, the client stays as it was
+                    async with api:
+                        res = "entered-although-refused"
+                elif a == "withop":             # a body that USES the connection: inside it the client is connected and an operation works
+                    target["port"] = dev.port
+                    dev.garbage = False
+                    async with api:
+                        inside = api.connected
+                        await (api.get_state() if api_type == "type1" else api.stop())
+                    if not inside:
+                        res = "not-connected-inside-the-context"
                 elif a == "with" or a.startswith("withx"):
                     target["port"] = dev.port
                     body_exc = None
